@@ -111,7 +111,7 @@ class SymbolTable(object):
             self.install_symbol(name, default)
             return default
         
-        return self.domain.find_symbol(name)
+        return self.domain.find_symbol(name, 'constant')
 
 
 class InstanceSymbolTable(SymbolTable):
@@ -468,7 +468,7 @@ class ActionWalker(xtuml.Walker):
         return property(lambda: value)
     
     def accept_EnumOrNamedConstantNode(self, node):
-        item = self.domain.find_symbol(node.namespace)
+        item = self.domain.find_symbol(node.namespace, 'enumeration')
         value = getattr(item, node.name)
         return property(lambda: value)
         
@@ -477,7 +477,7 @@ class ActionWalker(xtuml.Walker):
     
     def accept_ImplicitInvocationNode(self, node):
         kwargs = self.accept(node.parameter_list)
-        item = self.domain.find_symbol(node.namespace)
+        item = self.domain.find_symbol(node.namespace, 'external entity')
         fn = getattr(item, node.action_name)
         value = fn(**kwargs)
         return property(lambda: value)
@@ -498,14 +498,14 @@ class ActionWalker(xtuml.Walker):
     
     def accept_BridgeInvocationNode(self, node):
         kwargs = self.accept(node.parameter_list)
-        ee = self.domain.find_symbol(node.namespace)
+        ee = self.domain.find_symbol(node.namespace, 'external entity')
         fn = getattr(ee, node.action_name)
         value = fn(**kwargs)
         return property(lambda: value)
         
     def accept_FunctionInvocationNode(self, node):
         kwargs = self.accept(node.parameter_list)
-        fn = self.domain.find_symbol(node.action_name)
+        fn = self.domain.find_symbol(node.action_name, 'function')
         value = fn(**kwargs)
         return property(lambda: value)
 
